@@ -67,11 +67,13 @@ func (m *Mutex) Unlock() {
 	if !m.locked {
 		panic("vsync: unlock of unlocked mutex")
 	}
+	m.locked = false
+	vrt.Wake(m)
+	// The scheduling point comes AFTER the release took effect, so that what the
+	// thread does next can be separated from the critical section it just left.
 	if UnlockPoints {
 		point("Unlock")
 	}
-	m.locked = false
-	vrt.Wake(m)
 }
 
 // RWMutex mirrors sync.RWMutex (no writer preference: see DESIGN.md §2.2).
@@ -101,11 +103,11 @@ func (m *RWMutex) Unlock() {
 	if !m.writer {
 		panic("vsync: Unlock of unlocked RWMutex")
 	}
+	m.writer = false
+	vrt.Wake(m)
 	if UnlockPoints {
 		point("Unlock")
 	}
-	m.writer = false
-	vrt.Wake(m)
 }
 
 func (m *RWMutex) RLock() {
@@ -128,12 +130,12 @@ func (m *RWMutex) RUnlock() {
 	if m.readers <= 0 {
 		panic("vsync: RUnlock of unlocked RWMutex")
 	}
-	if UnlockPoints {
-		point("RUnlock")
-	}
 	m.readers--
 	if m.readers == 0 {
 		vrt.Wake(m)
+	}
+	if UnlockPoints {
+		point("RUnlock")
 	}
 }
 
